@@ -321,9 +321,6 @@ func authTerm(net, rcp, msg []byte, timeout, now int64, tok *p2p.AuthToken) stri
 		HN(msg[40:72]), HN(refPeerId(net, msg[40:72])), HN(msg[40:72]), HN(hh[:]), HN(msg[73:137]), vh.Bool(k.Verify(crypto.Hash(hh), sg)), obs)
 }
 
-// the call sites that may pass "no freshness test" (0): only the relayed-consumer path
-var zeroLimitSites = map[string]bool{"(*Peer).updateRemoteRelayerConsumers": true}
-
 // all handshakes of the case run at the same time against the real clock
 func runHandshake(c *vh.Ctx, cs Case) {
 	kernel.VerifClockReset()
@@ -375,11 +372,14 @@ func runHandshake(c *vh.Ctx, cs Case) {
 		calls := append([]authCall{}, r.h.calls...)
 		r.h.mu.Unlock()
 		for _, call := range calls {
-			if call.timeout <= 0 && !zeroLimitSites[call.caller] {
-				c.Fail("handshake-limit", fmt.Sprintf("%s passed the clock-skew limit %d to AuthenticateAs (delivery after %d ms): no freshness test on a path other than the relayed-consumer one", call.caller, call.timeout, hs.DelayMs), one)
+			// judged by the path the harness entered (neighbor handshake vs relayed consumers),
+			// not by the name of the function that contains the call
+			if !hs.Relayed && call.timeout <= 0 {
+				c.Fail("handshake-limit", fmt.Sprintf("the direct-neighbor handshake passed the clock-skew limit %d to AuthenticateAs (delivery after %d ms): no freshness test", call.timeout, hs.DelayMs), one)
 			} else if !hs.Relayed && call.timeout != limit {
-				c.Fail("handshake-limit", fmt.Sprintf("%s passed the clock-skew limit %d, the configured handshake timeout is %d", call.caller, call.timeout, limit), one)
+				c.Fail("handshake-limit", fmt.Sprintf("the direct-neighbor handshake passed the clock-skew limit %d, the configured handshake timeout is %d", call.timeout, limit), one)
 			}
+			c.Count(fmt.Sprintf("observed-limit/%s=%d", call.caller, call.timeout))
 			term := ""
 			if call.before == call.after {
 				term = authTerm(net[:], call.rcp[:], call.msg, call.timeout, call.before, call.tok)
@@ -387,8 +387,9 @@ func runHandshake(c *vh.Ctx, cs Case) {
 			c.Case(kind, fmt.Sprintf("%s|%d|%d|%v", hs.Sender, hs.AgeSec, hs.DelayMs, hs.Relayed), !stale, one, term)
 		}
 		if hs.Relayed {
-			if len(calls) != 1 || calls[0].timeout != 0 || !accepted {
-				c.Fail("relayed-consumer-path", "the relayed-consumer path no longer authenticates a correctly signed token without a freshness test (known, recorded behaviour)", one)
+			// which limit this path passes is reported (observed-limit counters), not judged
+			if !accepted && !stale {
+				c.Fail("relayed-consumer-path", "a fresh, correctly signed consumer token was refused on the relayed-consumer path: "+r.err.Error(), one)
 			}
 			continue
 		}
@@ -423,15 +424,15 @@ func handshakeCase(r *vh.Rand, withRelayed bool) Case {
 	return cs
 }
 
-// inventory of the call sites of AuthenticateAs in the repository's p2p and kernel
-// sources: the set the dynamic cases above cover must not grow unnoticed, and the
-// literal limit 0 ("no freshness test") may appear only on the relayed-consumer path
+// inventory of the call sites of AuthenticateAs in the repository's sources and which
+// of them pass a literal 0: INFORMATIONAL (a note and counters in the report), never an
+// oracle failure - the property does not say which function contains the call; the
+// handshake cases carry the property.
 func runCallSites(c *vh.Ctx, cs Case) {
 	repo := os.Getenv("VERIF_REPO")
 	if repo == "" {
 		repo = "/repo"
 	}
-	known := map[string]bool{"authenticateNeighbor": true, "updateRemoteRelayerConsumers": true}
 	fset := token.NewFileSet()
 	found := 0
 	for _, dir := range []string{"p2p", "kernel", "rpc", "."} {
@@ -461,22 +462,20 @@ func runCallSites(c *vh.Ctx, cs Case) {
 						site := dir + "." + fn.Name.Name
 						lit, isLit := call.Args[2].(*ast.BasicLit)
 						zero := isLit && lit.Value == "0"
-						c.Case("callsite/"+site, site, true, cs, "")
-						if !known[fn.Name.Name] {
-							c.Fail("auth-callsite-new", "new call site of AuthenticateAs not covered by the handshake cases: "+site, cs)
+						c.Count("callsite/" + site)
+						note := "AuthenticateAs call site: " + site
+						if zero {
+							c.Count("callsite-literal-0/" + site)
+							note += " (literal limit 0: no freshness test)"
 						}
-						if zero && fn.Name.Name != "updateRemoteRelayerConsumers" {
-							c.Fail("auth-callsite-zero-limit", "AuthenticateAs called with the literal limit 0 (no freshness test) in "+site, cs)
-						}
+						c.Note(note)
 						return true
 					})
 				}
 			}
 		}
 	}
-	if found < 2 {
-		c.Fail("auth-callsite-missing", fmt.Sprintf("expected the two known call sites of AuthenticateAs, found %d", found), cs)
-	}
+	c.Note(fmt.Sprintf("AuthenticateAs call sites found in the sources: %d", found))
 }
 
 // one hexadecimal literal per byte string / big number (see coq/Model/HexLit.v)
